@@ -116,7 +116,7 @@ impl Check for C13 {
             3..=8 => gen::biased_image(rng, len),
             _ => {
                 let rio = rng.bool();
-                gen::hazard_program(rng, gen::HazardOpts { len: 100, wild: true, run_into_io: rio, with_ei: true })
+                gen::hazard_program(rng, gen::HazardOpts { len: 100, wild: true, run_into_io: rio, with_ei: true, irq: None })
             }
         };
         let stack = gen::pick_stack(rng);
